@@ -915,3 +915,136 @@ func sizedTwinCase(i int) *sem.Case {
 	g.Docs = append(g.Docs, docgen.Doc{V: jsonx.Obj{{K: "volumeSteps", V: []any{jsonx.N(int64(pr[1][1])), jsonx.N(int64(pr[1][1] + 1))}}}, Class: "bound", Label: "sized-twin-item"})
 	return c
 }
+
+// branchFieldCollisionCase: allOf (and anyOf) whose members declare DIFFERENT JSON property names that map to one Go
+// identifier (`user_id` in one member, `userId` in another, `UserID` in a third), each with a type and rule of its
+// own, inline and by reference: the merged type exposes every one of them (distinct fields) and enforces each
+// member's rule on its own key.
+func branchFieldCollisionCase(i int) *sem.Case {
+	fam := [][3]string{{"user_id", "userId", "UserID"}, {"net-addr", "netAddr", "net_addr"}, {"a b", "aB", "a_b"}}[i%3]
+	kw := []string{"allOf", "anyOf"}[(i/3)%2]
+	byRef := (i/6)%2 == 1
+	three := (i/12)%2 == 1
+	m0 := &sg.Schema{Types: []string{"object"}, Props: []sg.Prop{{Name: fam[0], S: &sg.Schema{Types: []string{"string"}, MinLen: 2}}, {Name: "own0", S: &sg.Schema{Types: []string{"boolean"}}}}, Required: []string{fam[0]}}
+	m1 := &sg.Schema{Types: []string{"object"}, Props: []sg.Prop{{Name: fam[1], S: &sg.Schema{Types: []string{"integer"}, Min: sg.Fp(1)}}, {Name: "own1", S: &sg.Schema{Types: []string{"boolean"}}}}, Required: []string{fam[1]}}
+	m2 := &sg.Schema{Types: []string{"object"}, Props: []sg.Prop{{Name: fam[2], S: &sg.Schema{Types: []string{"array"}, Items: &sg.Schema{Types: []string{"integer"}}, MaxItems: 2}}}}
+	root := &sg.Schema{Types: []string{"object"}}
+	members := []*sg.Schema{m0, m1}
+	if three {
+		members = append(members, m2)
+	}
+	if byRef {
+		for k, m := range members {
+			n := fmt.Sprintf("Part%d", k)
+			root.Defs = append(root.Defs, sg.Prop{Name: n, S: m})
+			members[k] = &sg.Schema{Ref: "#/$defs/" + n, Target: m}
+		}
+	}
+	comp := &sg.Schema{}
+	if kw == "allOf" {
+		comp.AllOf = members
+	} else {
+		// anyOf: a document is accepted when at least one member accepts it
+		m0.Required, m1.Required = []string{fam[0]}, []string{fam[1]}
+		comp.AnyOf = members
+	}
+	root.Props = []sg.Prop{{Name: "rec", S: comp}}
+	c := &sem.Case{Root: root, Sig: fmt.Sprintf("branch-field-collision/%d/%s/%v/%v", i%3, kw, byRef, three), NoAuto: true}
+	add := func(o jsonx.Obj, label string) {
+		c.Docs = append(c.Docs, docgen.Doc{V: jsonx.Obj{{K: "rec", V: o}}, Class: "collision", Label: label})
+	}
+	add(jsonx.Obj{{K: fam[0], V: "abc"}, {K: fam[1], V: jsonx.N(5)}}, "both-own")
+	add(jsonx.Obj{{K: fam[0], V: "abc"}, {K: fam[1], V: jsonx.N(0)}}, "second-rule-broken")
+	add(jsonx.Obj{{K: fam[0], V: "a"}, {K: fam[1], V: jsonx.N(5)}}, "first-rule-broken")
+	add(jsonx.Obj{{K: fam[0], V: "abc"}, {K: fam[1], V: "five"}}, "second-wrong-type")
+	add(jsonx.Obj{{K: fam[0], V: jsonx.N(7)}, {K: fam[1], V: jsonx.N(5)}}, "first-wrong-type")
+	add(jsonx.Obj{{K: fam[0], V: "abc"}}, "second-absent")
+	add(jsonx.Obj{{K: fam[1], V: jsonx.N(5)}}, "first-absent")
+	if three {
+		add(jsonx.Obj{{K: fam[0], V: "abc"}, {K: fam[1], V: jsonx.N(5)}, {K: fam[2], V: []any{jsonx.N(1)}}}, "all-three")
+		add(jsonx.Obj{{K: fam[0], V: "abc"}, {K: fam[1], V: jsonx.N(5)}, {K: fam[2], V: []any{jsonx.N(1), jsonx.N(2), jsonx.N(3)}}}, "third-rule-broken")
+	}
+	return c
+}
+
+// sharedMemberStringCase: a definition with a constrained string property (Person.name: minLength 2) that is used on
+// its own AND as a non-last member of an anyOf / allOf whose later member declares the same property with OTHER limits
+// (Robot.name: maxLength 5, a pattern): what the definition enforces on its own is what IT states, whenever its
+// unmarshaler is written out. (For allOf the in-place merge into the definition is the recorded finding
+// allof-shared-def-polluted; the anyOf form and the referring property are asserted.)
+func sharedMemberStringCase(i int) *sem.Case {
+	person := &sg.Schema{Types: []string{"object"}, Props: []sg.Prop{{Name: "name", S: &sg.Schema{Types: []string{"string"}, MinLen: 2}}, {Name: "age", S: &sg.Schema{Types: []string{"integer"}}}}, Required: []string{"name"}}
+	robotName := &sg.Schema{Types: []string{"string"}, MaxLen: 5}
+	if i%2 == 1 {
+		robotName = &sg.Schema{Types: []string{"string"}, MinLen: 1, MaxLen: 5}
+	}
+	robot := &sg.Schema{Types: []string{"object"}, Props: []sg.Prop{{Name: "name", S: robotName}, {Name: "model", S: &sg.Schema{Types: []string{"string"}}}}, Required: []string{"name", "model"}}
+	refP := func() *sg.Schema { return &sg.Schema{Ref: "#/$defs/Person", Target: person} }
+	refR := func() *sg.Schema { return &sg.Schema{Ref: "#/$defs/Robot", Target: robot} }
+	holder := &sg.Schema{AnyOf: []*sg.Schema{refP(), refR()}}
+	root := &sg.Schema{Types: []string{"object"}, Defs: []sg.Prop{{Name: "Person", S: person}, {Name: "Robot", S: robot}}}
+	// the order in which the composition and the plain reference are reached
+	if (i/2)%2 == 0 {
+		root.Props = []sg.Prop{{Name: "holder", S: holder}, {Name: "owner", S: refP()}, {Name: "unit", S: refR()}}
+	} else {
+		root.Props = []sg.Prop{{Name: "zholder", S: holder}, {Name: "owner", S: refP()}, {Name: "unit", S: refR()}}
+	}
+	c := &sem.Case{Root: root, Sig: fmt.Sprintf("shared-member-string/%d", i%4), NoAuto: true}
+	if (i/4)%2 == 1 {
+		c.Args = []string{"--extra-imports"}
+	}
+	for _, n := range []string{"A", "Al", "Alexa", "Alexander"} {
+		c.Docs = append(c.Docs, docgen.Doc{V: jsonx.Obj{{K: "owner", V: jsonx.Obj{{K: "name", V: n}}}}, Class: "string", Label: "definition-on-its-own"},
+			docgen.Doc{V: jsonx.Obj{{K: "unit", V: jsonx.Obj{{K: "name", V: n}, {K: "model", V: "m"}}}}, Class: "string", Label: "later-member-on-its-own"})
+	}
+	return c
+}
+
+// exactSizeGridCase: arrays whose minItems equals maxItems (a 2x2 grid, a 3x2x2 block), the inner arrays nullable or
+// not, at required / optional positions; documents with rows one short / exact / one long at every level and with
+// `null` rows where the row type allows null: a null array is never length-checked, at any nesting level.
+func exactSizeGridCase(i int) *sem.Case {
+	nullableRows := i%2 == 0
+	deep := (i/2)%2 == 1
+	cell := &sg.Schema{Types: []string{"integer"}}
+	row := &sg.Schema{Types: []string{"array"}, Items: cell, MinItems: 2, MaxItems: 2}
+	if nullableRows {
+		row.Types = []string{"array", "null"}
+	}
+	grid := &sg.Schema{Types: []string{"array"}, Items: row, MinItems: 2, MaxItems: 2}
+	if deep {
+		plane := grid
+		if nullableRows {
+			plane.Types = []string{"array", "null"}
+		}
+		grid = &sg.Schema{Types: []string{"array"}, Items: plane, MinItems: 3, MaxItems: 3}
+	}
+	root := &sg.Schema{Types: []string{"object"}, Props: []sg.Prop{{Name: "grid", S: grid}, {Name: "name", S: &sg.Schema{Types: []string{"string"}}}}}
+	if (i/4)%2 == 1 {
+		root.Required = []string{"grid"}
+	}
+	c := &sem.Case{Root: root, Sig: fmt.Sprintf("exact-size-grid/%v/%v", nullableRows, deep), NoAuto: true}
+	r := func(n int) any {
+		a := []any{}
+		for k := 0; k < n; k++ {
+			a = append(a, jsonx.N(int64(k)))
+		}
+		return a
+	}
+	wrap := func(rows ...any) any {
+		if deep {
+			return jsonx.Obj{{K: "grid", V: []any{rows, []any{r(2), r(2)}, []any{r(2), r(2)}}}}
+		}
+		return jsonx.Obj{{K: "grid", V: rows}}
+	}
+	c.Docs = append(c.Docs, docgen.Doc{V: wrap(r(2), r(2)), Class: "items", Label: "exact"}, docgen.Doc{V: wrap(r(2), r(1)), Class: "items", Label: "row-short"}, docgen.Doc{V: wrap(r(2), r(3)), Class: "items", Label: "row-long"},
+		docgen.Doc{V: wrap(r(2)), Class: "items", Label: "rows-short"}, docgen.Doc{V: wrap(r(2), r(2), r(2)), Class: "items", Label: "rows-long"},
+		docgen.Doc{V: jsonx.Obj{{K: "name", V: "n"}, {K: "grid", V: nil}}, Class: "nullok", Label: "null-grid"})
+	if nullableRows {
+		c.Docs = append(c.Docs, docgen.Doc{V: wrap(r(2), nil), Class: "nullok", Label: "null-row"}, docgen.Doc{V: wrap(nil, nil), Class: "nullok", Label: "null-rows"}, docgen.Doc{V: wrap(nil), Class: "items", Label: "null-row-rows-short"})
+		if deep {
+			c.Docs = append(c.Docs, docgen.Doc{V: jsonx.Obj{{K: "grid", V: []any{nil, []any{r(2), nil}, []any{r(2), r(2)}}}}, Class: "nullok", Label: "null-plane"})
+		}
+	}
+	return c
+}
